@@ -301,7 +301,10 @@ def one_case(rec: Recorder, rng, idx: int) -> None:
                 rec.count("leading_zero_private_key")
                 nontrivial = True
         nontrivial = nontrivial or h != "SHA512"
-        env_pub = envelope(G, h, secret_alg, sec_params, privlen, publen, 1, l0, l1, l2, rkid, b"", peer)
+        # (the public-key flag is bit 0; Windows key identifiers of such blobs carry 3, other bits are not ours to interpret)
+        pub_flags = rng.choice([1, 1, 3, 3, 5, 0x80000001])
+        rec.seen("public_envelope_flags", pub_flags)
+        env_pub = envelope(G, h, secret_alg, sec_params, privlen, publen, pub_flags, l0, l1, l2, rkid, b"", peer)
         with mon.ENTROPY.record({nbytes: [eph_bytes]}) as ent:
             try:
                 kek_enc, kid = env_pub.new_kek()
